@@ -829,6 +829,159 @@ pub fn concurrent_route(n_requests: usize, ip: &str) -> Vec<Fail> {
     fails
 }
 
+/// Round robin through the server's proxy handler when some requests are not proxied at all (refused with 403 because
+/// the client or a forwarded address is blacklisted) and when a target is down: the requests that are proxied must
+/// still be given the targets strictly in rotation, and a refused request must reach no target.
+pub fn rotation_with_refusals(seed: u64, ip: &str) -> (Vec<Fail>, J) {
+    use humphrey_server::config::{BlacklistConfig, BlacklistMode, LoadBalancerMode};
+    use humphrey_server::proxy::{proxy_handler, EqMutex, LoadBalancer};
+    use std::io::Read;
+    let mut rng = Lcg(seed);
+    let k = 2 + (rng.next() % 3) as usize;
+    let dead = if rng.next() % 3 == 0 { Some((rng.next() % k as u64) as usize) } else { None };
+    let stop = Arc::new(AtomicBool::new(false));
+    let hits: Arc<std::sync::Mutex<Vec<(usize, String)>>> = Arc::new(std::sync::Mutex::new(Vec::new()));
+    let mut targets = Vec::new();
+    let mut threads = Vec::new();
+    for t in 0..k {
+        let l = match TcpListener::bind((ip, 0)) {
+            Ok(l) => l,
+            Err(e) => return (vec![Fail::new("harness-bind", e.to_string())], json!({})),
+        };
+        targets.push(l.local_addr().unwrap().to_string());
+        if dead == Some(t) {
+            // nothing listens there any more: connection refused
+            drop(l);
+            continue;
+        }
+        let _ = l.set_nonblocking(true);
+        let (st, hits) = (stop.clone(), hits.clone());
+        threads.push(std::thread::spawn(move || {
+            while !st.load(Ordering::SeqCst) {
+                match l.accept() {
+                    Ok((mut s, _)) => {
+                        let _ = s.set_nonblocking(false);
+                        let _ = s.set_read_timeout(Some(Duration::from_secs(5)));
+                        let mut buf = Vec::new();
+                        let mut tmp = [0u8; 2048];
+                        while !buf.windows(4).any(|w| w == b"\r\n\r\n") {
+                            match s.read(&mut tmp) {
+                                Ok(0) | Err(_) => break,
+                                Ok(n) => buf.extend_from_slice(&tmp[..n]),
+                            }
+                        }
+                        let line = String::from_utf8_lossy(&buf).lines().next().unwrap_or("").to_string();
+                        hits.lock().unwrap().push((t, line));
+                        let _ = s.write_all(format!("HTTP/1.1 200 OK\r\nContent-Length: 8\r\n\r\ntarget-{}", t).as_bytes());
+                    }
+                    Err(_) => std::thread::sleep(Duration::from_millis(1)),
+                }
+            }
+        }));
+    }
+    let listed: std::net::IpAddr = "10.9.8.7".parse().unwrap();
+    let mut cfg = crate::props::c16::quiet_config(0, 0);
+    cfg.blacklist = BlacklistConfig { list: vec![listed], mode: BlacklistMode::Forbidden };
+    let state = Arc::new(humphrey_server::server::server::AppState::from(cfg));
+    let lb = EqMutex::new(LoadBalancer { targets: targets.clone(), mode: LoadBalancerMode::RoundRobin, index: 0, lcg: humphrey_server::rand::Lcg::new() });
+    let n = 6 + (rng.next() % 9) as usize;
+    let mut script = Vec::new();
+    let mut fails = Vec::new();
+    let mut served = 0usize;
+    for i in 0..n {
+        // 0: proxied; 1: proxied, carrying an unlisted X-Forwarded-For; 2: refused (listed peer); 3: refused (listed forwarded address)
+        let kind = [0u8, 0, 1, 2, 3, 3][(rng.next() % 6) as usize];
+        script.push(kind);
+        let (peer, xff) = match kind {
+            0 => ("127.0.0.1:40000", None),
+            1 => ("127.0.0.1:40000", Some("192.0.2.33")),
+            2 => ("10.9.8.7:40000", None),
+            _ => ("127.0.0.1:40000", Some("10.9.8.7")),
+        };
+        let wire = format!("GET /p/r{} HTTP/1.1\r\nHost: localhost\r\n{}\r\n", i, xff.map(|x| format!("X-Forwarded-For: {}\r\n", x)).unwrap_or_default()).into_bytes();
+        let mut rd = PlanReader::new(wire, vec![usize::MAX]);
+        let req = match Request::from_stream(&mut rd, peer.parse().unwrap()) {
+            Ok(r) => r,
+            Err(e) => return (vec![Fail::new("harness-request", format!("{:?}", e))], json!({})),
+        };
+        let before = hits.lock().unwrap().len();
+        let r = catch(|| proxy_handler(req, state.clone(), &lb, "/p/*"));
+        let after: Vec<(usize, String)> = hits.lock().unwrap()[before..].to_vec();
+        match r {
+            Err(p) => fails.push(fail!("panic", "proxy_handler panicked: {}", p)),
+            Ok(r) => {
+                let status = u16::from(r.status_code);
+                if kind >= 2 {
+                    if status != 403 || !after.is_empty() {
+                        fails.push(fail!("refused-request-proxied", "request {} (peer {}, X-Forwarded-For {:?}, 10.9.8.7 blacklisted in forbidden mode) was answered {} and reached targets {:?}", i, peer, xff, status, after));
+                    }
+                } else {
+                    let want = served % k;
+                    served += 1;
+                    if dead == Some(want) {
+                        if status != 502 || !after.is_empty() {
+                            fails.push(fail!("rotation-after-refusal", "targets {:?} (target {} is down), script {:?}: proxied request number {} is target {}'s turn and must be answered 502, got {} via {:?}", targets, want, script, served - 1, want, status, after));
+                        }
+                    } else if status != 200 || r.body != format!("target-{}", want).as_bytes() || after.len() != 1 || after[0].0 != want {
+                        fails.push(fail!(
+                            "rotation-after-refusal",
+                            "round robin over {} targets{}, request kinds so far {:?} (0/1 proxied, 2/3 refused with 403): proxied request number {} must go to target {}, but was answered {} {:?} and reached {:?}",
+                            k,
+                            dead.map(|d| format!(" (target {} down)", d)).unwrap_or_default(),
+                            script,
+                            served - 1,
+                            want,
+                            status,
+                            show(&r.body[..r.body.len().min(20)]),
+                            after
+                        ));
+                    }
+                }
+            }
+        }
+        if !fails.is_empty() {
+            break;
+        }
+    }
+    stop.store(true, Ordering::SeqCst);
+    for t in threads {
+        let _ = t.join();
+    }
+    fails.truncate(1);
+    (fails, json!({"targets": k, "down": dead, "kinds": script}))
+}
+
+fn rotation_refusals(ctx: &Ctx) {
+    let runs = ctx.tier.pick(48usize, 1200usize);
+    let next = std::sync::atomic::AtomicUsize::new(0);
+    let found: std::sync::Mutex<Vec<(Fail, J)>> = std::sync::Mutex::new(Vec::new());
+    crate::engine::shards(16, |sh| loop {
+        let i = next.fetch_add(1, Ordering::SeqCst);
+        if i >= runs {
+            break;
+        }
+        let seed = pt::mix(ctx.seed, 9900 + i as u64);
+        let (fails, case) = rotation_with_refusals(seed, &format!("127.0.9.{}", 100 + sh));
+        let refused = case["kinds"].as_array().map_or(false, |a| a.iter().any(|x| x.as_u64().unwrap_or(0) >= 2));
+        ctx.case(hash_of(&("rotation-refusals", case.to_string())), refused, &["rotation-through-handler", if case["down"].is_null() { "rotation:all-targets-up" } else { "rotation:one-target-down" }]);
+        if i == 0 {
+            ctx.sample("rotation-through-handler", || case.clone());
+        }
+        for f in fails {
+            if f.sig.starts_with("harness-") {
+                ctx.inconclusive(&f.detail);
+            } else {
+                found.lock().unwrap().push((f, json!({"seed": seed.to_string(), "case": case})));
+            }
+        }
+    });
+    for (f, c) in found.into_inner().unwrap() {
+        if !ctx.tolerate(&f) {
+            ctx.violation(f, "rotation-refusals", c);
+        }
+    }
+}
+
 fn concurrent(ctx: &Ctx) {
     let runs = ctx.tier.pick(2usize, 12usize);
     let next = std::sync::atomic::AtomicUsize::new(0);
@@ -857,9 +1010,10 @@ fn concurrent(ctx: &Ctx) {
 }
 
 pub fn run(ctx: &Ctx) {
-    ctx.rule("client requests from the HTTP grammar x upstream behaviours: generated valid responses (modelled status codes; Content-Length, chunked, close-delimited) delivered whole or in segments, each valid response cut at every byte offset then closed (fault enumeration), garbage / header-malformed / bare-LF / unmodelled-status responses, connection refused, accept-then-close, accept-then-silence, stall mid-response, one byte per 50 ms; through proxy_request and through the server's proxy_handler (prefix stripping); oracle = reference response parser applied to the bytes the upstream actually sent (complete valid => identical status/headers/body, otherwise 502), a deadline of timeout + active sending time + 2 s, and the reference request parser on what the upstream received (same request, stripped prefix, one added X-Forwarded-For = origin address). Load balancer: strict rotation / exact fairness under 1..8 threads, random within the set. Concurrent requests on one proxy route with a silent and a healthy target: each answered within the handler's timeout + slack, the healthy ones promptly. Non-trivial = any fault case or chunked / close-delimited framing; distinct by case");
+    ctx.rule("client requests from the HTTP grammar x upstream behaviours: generated valid responses (modelled status codes; Content-Length, chunked, close-delimited) delivered whole or in segments, each valid response cut at every byte offset then closed (fault enumeration), garbage / header-malformed / bare-LF / unmodelled-status responses, connection refused, accept-then-close, accept-then-silence, stall mid-response, one byte per 50 ms; through proxy_request and through the server's proxy_handler (prefix stripping); oracle = reference response parser applied to the bytes the upstream actually sent (complete valid => identical status/headers/body, otherwise 502), a deadline of timeout + active sending time + 2 s, and the reference request parser on what the upstream received (same request, stripped prefix, one added X-Forwarded-For = origin address). Load balancer: strict rotation / exact fairness under 1..8 threads, random within the set; through proxy_handler with 2..4 targets (one possibly down) and a script that interleaves proxied requests with requests refused 403 for a blacklisted peer / forwarded address: proxied request j goes to target j mod k (502 when that target is down), a refused request reaches no target. Concurrent requests on one proxy route with a silent and a healthy target: each answered within the handler's timeout + slack, the healthy ones promptly. Non-trivial = any fault case or chunked / close-delimited framing; distinct by case");
     ctx.assume("scripted loopback upstream; close-delimited bodies cut anywhere and a chunked body cut after its terminal `0\\r\\n` are ambiguous and either reading is accepted; status codes outside Humphrey's StatusCode table only require `502 or faithful, never panic/hang`; proxy_handler's 5 s timeout is hard-coded");
     load_balancer(ctx);
+    rotation_refusals(ctx);
     enumerate_cuts(ctx);
     faults_and_random(ctx);
     // both wait for timeouts most of the time: run them side by side
@@ -876,6 +1030,7 @@ pub fn replay(_ctx: &Ctx, kind: &str, case: &J) -> Vec<Fail> {
             Err(e) => vec![Fail::new("harness", format!("bad replay case: {}", e))],
         },
         "concurrent" => concurrent_route(case["requests"].as_u64().unwrap_or(4) as usize, "127.0.9.99"),
+        "rotation-refusals" => rotation_with_refusals(case["seed"].as_str().and_then(|x| x.parse().ok()).unwrap_or(0), "127.0.9.99").0,
         _ => vec![],
     }
 }
